@@ -68,7 +68,7 @@ impl Pay for Quantity {
         Quantity::new(v, unit_of(salt))
     }
     fn ident(&self, o: &Self) -> bool {
-        self.value.to_bits() == o.value.to_bits() && self.unit == o.unit
+        self.value.to_bits() == o.value.to_bits() && ueq(self.unit, o.unit)
     }
 }
 impl Pay for State {
